@@ -11,6 +11,10 @@ package engine
 // engine built by the Builder: options present (limits are checked non-negative where a callee needs it)
 //@ pred EngRep(eng flows.Engine) bool := !isnil(eng) && eng.(*engine) != nil && eng.(*engine).options != nil
 
+// engine and options are set when the engine is built and never written afterwards (structural obligations
+// writers_subset in C05): unknown callees leave them alone
+//@ immutable session::engine, engine::options, flows.EngineOptions::*
+
 // ---- C07 / C01: picking the exit of a node
 //@ pred nodeOK(n flows.Node) bool := !isnil(n) && n.(*definition.node) != nil && (forall k int :: 0 <= k && k < len(n.(*definition.node).exits) ==> (!isnil(n.(*definition.node).exits[k]) && n.(*definition.node).exits[k].(*definition.exit) != nil))
 //@ pred routerOK(rt flows.Router) bool := isnil(rt) || (typeis(rt, *routers.SwitchRouter) && casesOK(rt.(*routers.SwitchRouter)) && catsOK(rt.(*routers.SwitchRouter).baseRouter)) || (typeis(rt, *routers.RandomRouter) && rt.(*routers.RandomRouter) != nil && catsOK(rt.(*routers.RandomRouter).baseRouter) && len(rt.(*routers.RandomRouter).categories) >= 1)
@@ -71,9 +75,24 @@ package engine
 // engine errors (*Error) are only built by newError, which only Resume and tryToResume call (structural checks
 // callers_subset / allocs_subset), so the execution loop never returns one
 //@ func (s *session) continueUntilWait
-//@   trusted
-//@   assigns computed
-//@   ensures [no_engine_error] !typeis(result, *Error)
+//@   havocs NewRun, addRun, findResumeExit, failRun, logSegment, PathLocation
+//@   requires s != nil && sprint != nil && EngRep(s.engine)
+//@   assigns *, ghost.sprintSteps
+//@   ensures_trusted [no_engine_error] !typeis(result, *Error)
+//@   ensures [step_limit] ghost.sprintSteps - old(ghost.sprintSteps) <= (old(s.engine.(*engine).options.MaxStepsPerSprint) > 0 ? old(s.engine.(*engine).options.MaxStepsPerSprint) : 0)
+//@ loop 1
+//@   invariant s.engine == old(s.engine) && EngRep(s.engine) && s.engine.(*engine).options == old(s.engine.(*engine).options) && s.engine.(*engine).options.MaxStepsPerSprint == old(s.engine.(*engine).options.MaxStepsPerSprint)
+//@   invariant numNewSteps >= 0 && ghost.sprintSteps - old(ghost.sprintSteps) <= numNewSteps
+//@   invariant ghost.sprintSteps - old(ghost.sprintSteps) <= (old(s.engine.(*engine).options.MaxStepsPerSprint) > 0 ? old(s.engine.(*engine).options.MaxStepsPerSprint) : 0)
+
+// C05: visiting a node creates exactly one step
+//@ func (s *session) visitNode
+//@   havocs pickNodeExit, InitializeRun, ensureQueryBasedGroups
+//@   requires s != nil && sprint != nil
+//@   assigns *, ghost.sprintSteps
+//@   ensures [one_step] ghost.sprintSteps == old(ghost.sprintSteps) + 1
+//@ loop 1
+//@   invariant ghost.sprintSteps == old(ghost.sprintSteps) + 1
 
 //@ func (s *session) tryToResume
 //@   nopanic until Apply
